@@ -7,12 +7,32 @@ import (
 	"testing"
 
 	"github.com/golang/protobuf/proto"
+	"github.com/itchio/headway/state"
 	"github.com/itchio/wharf/bsdiff"
 	"github.com/itchio/wharf/bsdiff/lrufile"
 	"pgregory.net/rapid"
 )
 
 func genBsdiffPair(rt *rapid.T) (old, nw []byte, desc string) {
+	if rapid.IntRange(0, 19).Draw(rt, "denselong") == 0 {
+		// more 128 KiB blocks than the scanner has workers at few partitions (13-18 blocks), the first
+		// blocks riddled with small differences (hundreds of matches), the rest nearly untouched
+		nb := rapid.IntRange(13, 18).Draw(rt, "denseblocks")
+		old = Bytes(rapid.Uint64().Draw(rt, "oseed"), nb*128*KiB+rapid.IntRange(0, 999).Draw(rt, "densetail"))
+		dense := rapid.IntRange(1, 3).Draw(rt, "denseregion") * 128 * KiB
+		every := rapid.SampledFrom([]int{200, 256, 300}).Draw(rt, "denseevery")
+		mosaic := rapid.Bool().Draw(rt, "densemosaic")
+		for o := 0; o < len(old); o++ {
+			if o < dense && o%every == every-1 {
+				if mosaic {
+					nw = append(nw, old[len(old)-1-o]) // a byte from elsewhere instead
+				}
+				continue // (or the byte dropped)
+			}
+			nw = append(nw, old[o])
+		}
+		return old, nw, fmt.Sprintf("%d blocks, a difference every %d bytes in the first %d KiB", nb, every, dense/KiB)
+	}
 	switch rapid.IntRange(0, 6).Draw(rt, "pairkind") {
 	case 6: // old file a whole number of cache chunks long, a small change shortly before its end
 		old = Bytes(rapid.Uint64().Draw(rt, "oseed"), rapid.IntRange(1, 9).Draw(rt, "ochunks")*32*KiB)
@@ -123,6 +143,11 @@ func c12One(t *testing.T, rt *rapid.T, pi int, sharedDC *bsdiff.DiffContext, sha
 		var msgs []*bsdiff.Control
 		var derr error
 		s := &Sched{Spec: spec, MaxSteps: 400000}
+		// the caller's progress callback takes its time, too (it is a park point like any other)
+		progressConsumer := Quiet()
+		if rapid.Bool().Draw(rt, "slowprogress") {
+			progressConsumer = &state.Consumer{OnProgress: func(float64) { s.Yield("bsdiff.progress") }}
+		}
 		s.Run(t, func() {
 			dc := sharedDC
 			dc.Partitions, dc.SuffixSortConcurrency = partitions, conc
@@ -130,7 +155,7 @@ func c12One(t *testing.T, rt *rapid.T, pi int, sharedDC *bsdiff.DiffContext, sha
 				s.Yield("sink")
 				msgs = append(msgs, cloneCtrl(m))
 				return nil
-			}, Quiet())
+			}, progressConsumer)
 		})
 		if s.BudgetExceeded {
 			return false
